@@ -41,11 +41,27 @@ def rand_cfg(r):
             "use_git": r.random() < 0.6, "use_diff": r.random() < 0.6, "path_variant": r.choice(["full", "full", "diffonly", "bare"])}
 
 
+_how = [0]
+
+
 def make_pp(cfg, out):
+    """the configuration object, set up in one of the three ways callers (and nbdime itself, e.g. `config.out = ...`)
+    use: constructor arguments / a default object whose public attributes are assigned afterwards / a copy of an
+    existing (coloured, everything-included) configuration that is re-targeted"""
+    import copy
     import nbdime.prettyprint as pp
     inc = types.SimpleNamespace(**cfg["include"])
-    return pp.PrettyPrintConfig(out=out, include=inc, color_words=cfg["color_words"], use_git=cfg["use_git"],
-                                use_diff=cfg["use_diff"], use_color=cfg["use_color"])
+    _how[0] += 1
+    how = _how[0] % 4
+    if how in (0, 1):
+        return pp.PrettyPrintConfig(out=out, include=inc, color_words=cfg["color_words"], use_git=cfg["use_git"],
+                                    use_diff=cfg["use_diff"], use_color=cfg["use_color"])
+    c = pp.PrettyPrintConfig() if how == 2 else copy.copy(pp.PrettyPrintConfig(use_color=True, color_words=True))
+    c.out = out
+    for key, val in cfg["include"].items():
+        setattr(c, key, val)
+    c.color_words, c.use_git, c.use_diff, c.use_color = cfg["color_words"], cfg["use_git"], cfg["use_diff"], cfg["use_color"]
+    return c
 
 
 def renderer_of(cfg):
